@@ -9,6 +9,12 @@ Case dict (JSON):
    'mcs': n | None, 'vf': n | None    chunksize / value_factor injected into ordered_map_valid(_indexed)_stream
    'ccs': n | None                    merge(chunk_size=...) (chunked_copy)
   }
+A frame may carry 'dt': {key column name: dtype} (strengthening SC02: key columns of any numpy dtype ExeTera stores —
+int8..int64, uint8..uint64, bool, float32/64, fixed strings S1..S8 — possibly different on the two sides).  The values
+of such a key column are given in the EXACT integer encoding the model joins on (see _key_enc): integers as
+themselves, floats (and integers compared with floats) times 2**60, byte strings big-endian padded to 8 bytes.  The
+encoding is strictly monotone and injective on the values compared, so the relational join on the encoded keys is the
+relational join on the keys (Props/C02.v: join_pairs_key_embedding, merge_spec_key_embedding).
 The first letter of a column name is its kind: k int32 (key), K int64 (key), i int32, l int64, f float64, b bool,
 s fixed string S3, c categorical int8, t timestamp, x indexed string.  Values are ints (strings for s/x).
 C02_VARIANT=orig makes the model the dataframe.py call-site table as found (used to tie the *_refuted theorems
@@ -29,7 +35,16 @@ S32, S64 = (1 << 31) - 1, 1 << 62
 HOWS = ['left', 'right', 'inner', 'outer']
 AUX = ('_left_map', '_right_map')
 
-RULE = ('exhaustive small scope: every pair of non-decreasing single-key columns of length <= N over 3 symbols '
+RULE = ('(SC02) key columns of every dtype: all 146 ordered pairs of key dtypes within {int8..int64, uint8..uint64, bool} x '
+        '{the same}, {float32, float64}^2, integer x float (both orders) and {S1,S2,S3,S5,S8}^2, each x 4 modes on the pandas '
+        'path (hint-free / non-selecting truthful hints, sorted and unsorted, some with a second key column) and x '
+        '{left,right,inner} on the streamed path (truthful unique hints, small and production chunk sizes), 2 structured-'
+        'random frames per combination in the quick tier (12 thorough; doubled when a library source differs from the '
+        'recorded tree): common values, values at the extremes of each dtype and around 2^7..2^64, and on each side aliases '
+        'of the other side\'s keys under every conversion between the two dtypes (wrap-around at 8/16/32/64 bits, sign '
+        'reinterpretation, rounding to 24/53 significant bits, truncated fractions, truncated byte strings); keys are sent '
+        'to the model in an exact monotone integer encoding; new small literals of the tree under test are planted as key '
+        'values, key-column lengths and chunk sizes. Then: exhaustive small scope: every pair of non-decreasing single-key columns of length <= N over 3 symbols '
         '(quick N=3: 400 pairs; thorough N=4: 1225 pairs) x how in {left,right,inner} x every truthful (unique-left, '
         'unique-right) hint combination with both ordered hints set (the streamed path) x join chunk size 1..3 and the '
         'production 1<<20, the map-stream chunk size / value_factor / chunked_copy size rotating over 1..4; the same pairs x '
@@ -40,12 +55,19 @@ RULE = ('exhaustive small scope: every pair of non-decreasing single-key columns
         'is one real merge on HDF5-backed frames (about 15-60 ms), which is what bounds N. Non-trivial = reaches a planted '
         'feature beyond its how/path tags.')
 EXHAUSTIVE = {'quick': True, 'thorough': True}
-TRUSTED = ['pandas.merge on (key columns, row index): section variable of the model, instantiated with the relational join; '
+TRUSTED = ['the encoding of key values as integers (harness/props/C02.py _dec_key/_enc_key: integers as themselves, floats '
+           'times 2^60, byte strings big-endian in 8 bytes), checked by a round trip on every key column created; its '
+           'soundness for the specification is Props/C02.v merge_spec_key_embedding',
+           'pandas.merge on (key columns, row index): section variable of the model, instantiated with the relational join; '
            'results of the pandas path are compared up to row order',
            'h5py / HDF5 field storage, Field.create_like, DataFrame.rename (modelled as association-list updates)',
            'numba code generation; numpy slicing semantics (np_slice / np_get of Model/MapStream.v)',
            'chunk sizes are injected by wrapping exetera.core.operations attributes with functools.partial (no source edit)']
-ASSUMPTIONS = ['hints are truthful; chunk sizes >= 1; every mapped indexed-string entry fits chunksize*value_factor bytes',
+ASSUMPTIONS = ['key values are finite (no NaN: no order, so no truthful ordered hint), floats are multiples of 2^-60 below 1e305, '
+               'fixed-string keys at most 8 bytes; the two key columns of a pair are both numeric or both fixed strings',
+               'no two keys of opposite sides of an int64/uint64 or integer/float key pair have the same binary64 value '
+               '(else known finding F-C02i)',
+               'hints are truthful; chunk sizes >= 1; every mapped indexed-string entry fits chunksize*value_factor bytes',
                'no run of equal keys on a trimmed side reaches the join chunk size (else the repaired get_next_chunk raises '
                'a clear ValueError: known finding F-C02g, production chunk size 1<<20)']
 
@@ -84,6 +106,106 @@ def _dataset():
     return _h5['ds']
 
 
+INT_RANGE = {'bool': (0, 1)}
+for _b in (8, 16, 32, 64):
+    INT_RANGE['int%d' % _b] = (-(1 << (_b - 1)), (1 << (_b - 1)) - 1)
+    INT_RANGE['uint%d' % _b] = (0, (1 << _b) - 1)
+FLOATS = ('float32', 'float64')
+FSCALE = 60                      # float keys are multiples of 2**-60: encoded as value * 2**60
+SWIDTH = 8                       # fixed-string keys are at most 8 bytes: encoded big-endian, NUL padded
+
+
+def _key_enc(ldt, rdt):
+    """the encoding of a pair of key columns: 'S' byte strings, 'f' some float involved, 'i' integers only"""
+    if ldt[0] == 'S' or rdt[0] == 'S':
+        return 'S'
+    if ldt in FLOATS or rdt in FLOATS:
+        return 'f'
+    return 'i'
+
+
+def _dec_key(z, dt, enc):
+    """encoded integer -> the python value stored in a column of dtype dt (exact, checked)"""
+    if enc == 'S':
+        b = int(z).to_bytes(SWIDTH, 'big').rstrip(b'\0')
+        assert len(b) <= int(dt[1:]), (z, dt)
+        return b
+    if enc == 'f':
+        if dt in FLOATS:
+            from fractions import Fraction
+            import struct
+            v = float(Fraction(int(z), 1 << FSCALE))
+            assert Fraction(v) * (1 << FSCALE) == z, (z, dt)
+            if dt == 'float32':
+                assert struct.unpack('f', struct.pack('f', v))[0] == v, (z, dt)
+            return v
+        assert z % (1 << FSCALE) == 0, (z, dt)
+        z = z >> FSCALE
+    lo, hi = INT_RANGE[dt]
+    assert lo <= z <= hi, (z, dt)
+    return int(z)
+
+
+def _enc_key(x, dt, enc):
+    """value read back from a destination column -> encoded integer"""
+    if enc == 'S':
+        return int.from_bytes(bytes(x).ljust(SWIDTH, b'\0'), 'big')
+    if enc == 'f':
+        from fractions import Fraction
+        if dt in FLOATS:
+            fx = float(x)
+            if fx != fx or fx in (float('inf'), float('-inf')):
+                return 'nonfinite:' + repr(fx)
+            q = Fraction(fx) * (1 << FSCALE)
+            return int(q) if q.denominator == 1 else 'unencodable:' + repr(fx)
+        return int(x) << FSCALE
+    return int(x)
+
+
+def _frame_dt(fr):
+    return fr.get('dt') or {}
+
+
+def _case_encs(case):
+    """per key column: encoding of the pair ('i' when the case has no dtype tags)"""
+    ld, rd = _frame_dt(case['L']), _frame_dt(case['R'])
+    out = []
+    for ln, rn in zip(case['L']['kn'], case['R']['kn']):
+        a, b = ld.get(ln), rd.get(rn)
+        if a is None and b is None:
+            out.append(None)
+        else:
+            out.append(_key_enc(a or _NAME_DT[ln[0]], b or _NAME_DT[rn[0]]))
+    return out
+
+
+_NAME_DT = {'k': 'int32', 'i': 'int32', 'K': 'int64', 'l': 'int64'}
+
+
+def _tagged(case, side):
+    """{key column name: (dtype, encoding)} of the dtype-tagged key columns of one side"""
+    fr = case[side]
+    d = _frame_dt(fr)
+    out = {}
+    for n, e in zip(fr['kn'], _case_encs(case)):
+        if n in d:
+            out[n] = (d[n], e)
+    return out
+
+
+def _create_key(df, name, zs, dt, enc):
+    np = _np
+    vals = [_dec_key(z, dt, enc) for z in zs]
+    if dt[0] == 'S':
+        f = df.create_fixed_string(name, int(dt[1:])); arr = np.asarray(vals, dtype=dt)
+    else:
+        f = df.create_numeric(name, dt); arr = np.asarray(vals, dtype=dt)
+    assert [_enc_key(x, dt, enc) for x in arr] == [int(z) for z in zs], (name, dt, zs)
+    if len(arr) > 0:
+        f.data.write(arr)
+    return f
+
+
 def _create(df, name, values):
     np = _np
     k = name[0]
@@ -116,11 +238,40 @@ def _frame_fields(fr):
     return [(n, col) for n, col in zip(fr['kn'], fr['keys'])] + [(n, v) for n, v in fr['cols']]
 
 
-def _build(ds, tag, fr):
+def _build(ds, tag, fr, tagged=None):
     df = ds.create_dataframe('%s%d' % (tag, _h5['n']))
     for n, v in _frame_fields(fr):
-        _create(df, n, v)
+        if tagged and n in tagged:
+            _create_key(df, n, v, *tagged[n])
+        else:
+            _create(df, n, v)
     return df
+
+
+def _dest_source(case, n):
+    """(side, source name) of destination column n under the documented naming rule"""
+    ln = [x for x, _ in _mapped(case['L'], case['lf'])]
+    rn = [x for x, _ in _mapped(case['R'], case['rf'])]
+    if n.endswith('_l') and n[:-2] in ln and n[:-2] in rn:
+        return 'L', n[:-2]
+    if n.endswith('_r') and n[:-2] in ln and n[:-2] in rn:
+        return 'R', n[:-2]
+    if n in ln and n not in rn:
+        return 'L', n
+    if n in rn and n not in ln:
+        return 'R', n
+    return None, n
+
+
+def _canon_key(f, dt, enc):
+    return [[_enc_key(x, dt, enc)] for x in f.data[:]]
+
+
+def _key_kind_ok(f, dt):
+    tn = type(f).__name__
+    if dt[0] == 'S':
+        return tn == 'FixedStringField' and f.data.dtype.itemsize == int(dt[1:])
+    return tn == 'NumericField' and str(f.data.dtype) == dt
 
 
 def _canon_field(name, f):
@@ -164,8 +315,9 @@ def _sort_rows(cols):
 def run(case):
     ops = _ops
     ds = _dataset()
-    left = _build(ds, 'l', case['L'])
-    right = _build(ds, 'r', case['R'])
+    tag = {'L': _tagged(case, 'L'), 'R': _tagged(case, 'R')}
+    left = _build(ds, 'l', case['L'], tag['L'])
+    right = _build(ds, 'r', case['R'], tag['R'])
     dest = ds.create_dataframe('d%d' % _h5['n'])
     saved = {}
     try:
@@ -205,8 +357,15 @@ def run(case):
         if n.startswith('valid'):
             if str(f.data.dtype) != 'bool':
                 raise AssertionError('valid field dtype')
-        elif not _kind_ok(n, f):
-            raise AssertionError('destination field %s has type %s' % (n, type(f).__name__))
+        else:
+            side, src = _dest_source(case, n) if (tag['L'] or tag['R']) else (None, n)
+            if side is not None and src in tag[side]:
+                if not _key_kind_ok(f, tag[side][src][0]):
+                    raise AssertionError('destination key field %s has type %s %s' % (n, type(f).__name__, f.data.dtype))
+                cols.append([n, _canon_key(f, *tag[side][src])])
+                continue
+            if not _kind_ok(n, f):
+                raise AssertionError('destination field %s has type %s' % (n, type(f).__name__))
         cols.append([n, _canon_field(n, f)])
     ordered = any(n in AUX for n in names)
     inv = None
@@ -276,6 +435,57 @@ def _mapped(fr, sel):
     return [(n, d[n]) for n in sel]
 
 
+def _wire_cols(case, side, sel):
+    tg = _tagged(case, side)
+    return [([_bytes(n), 0, [0], [0], [[int(z)] for z in v]] if n in tg else _wire_col(n, v))
+            for n, v in _mapped(case[side], sel)]
+
+
+def _pair_dts(case):
+    ld, rd = _frame_dt(case['L']), _frame_dt(case['R'])
+    return [(ld.get(ln) or _NAME_DT[ln[0]], rd.get(rn) or _NAME_DT[rn[0]])
+            for ln, rn in zip(case['L']['kn'], case['R']['kn'])]
+
+
+def _is_int(dt):
+    return dt in INT_RANGE
+
+
+def binary64_pairs(case):
+    """per key column: 1 when the code under test may compare keys of the two columns after converting them to binary64.
+      streamed path: the numba kernels compare left[i] with right[j] on the two arrays' own dtypes; numba's rule for a
+                     mixed pair is binary64 as soon as one side is a float or the pair is uint64 with a signed integer
+                     (comparisons inside one column stay exact);
+      pandas path:   pandas casts both columns of an integer/float pair to float64; an int64/uint64 pair is compared
+                     exactly when both columns are sorted and one is unique and as float64 otherwise (pandas 3.0);
+                     narrower integer pairs are compared exactly (since fix F-C02h widens them in dataframe.py)."""
+    out = []
+    for a, b in _pair_dts(case):
+        if a[0] == 'S' or b[0] == 'S':
+            out.append(0)
+            continue
+        fl = (a in FLOATS or b in FLOATS) and a != b
+        mixed64 = _is_int(a) and _is_int(b) and a != b and 'uint64' in (a, b) and (a.startswith('int') or b.startswith('int'))
+        out.append(1 if fl or mixed64 else 0)
+    return out
+
+
+def whole_column_cast(case):
+    """per key column: 1 on the pandas path for an integer/float pair (both columns are cast to float64 as a whole)"""
+    if is_ordered(case):
+        return [0] * len(case['L']['kn'])
+    return [1 if a[0] != 'S' and b[0] != 'S' and ((a in FLOATS) != (b in FLOATS)) else 0 for a, b in _pair_dts(case)]
+
+
+def key_views(case):
+    """the wire flags kvs of Extract/E_C02.v: the model joins on round_sig 53 of both key columns (Model/KeyView.v).  That
+    is exactly what the pandas path does to an integer/float pair (whole-column astype).  The streamed path converts only
+    inside cross-column comparisons, which no per-column view expresses, and what pandas does to an int64/uint64 pair
+    depends on its internal route: there the model compares exactly and the region where binary64 cannot tell two keys of
+    opposite sides apart is delimited by float_collapse()."""
+    return whole_column_cast(case)
+
+
 def _hint(h):
     return 1 if h else 0
 
@@ -299,9 +509,8 @@ def to_val(case):
     ccs = case['ccs'] if case.get('ccs') is not None else MODEL_BIG
     return [VARIANT, HOWS.index(case['how']), _hint(lo), _hint(lu), _hint(ro), _hint(ru),
             case['L']['keys'], case['R']['keys'],
-            [_wire_col(n, v) for n, v in _mapped(case['L'], case['lf'])],
-            [_wire_col(n, v) for n, v in _mapped(case['R'], case['rf'])],
-            _bytes('_l'), _bytes('_r'), cs, mcs, vf, ccs]
+            _wire_cols(case, 'L', case['lf']), _wire_cols(case, 'R', case['rf']),
+            _bytes('_l'), _bytes('_r'), cs, mcs, vf, ccs, key_views(case)]
 
 
 def _dec_cols(cols):
@@ -406,6 +615,73 @@ def entry_too_long(case):
     return False
 
 
+def _round_sig(p, z):
+    """Model/KeyView.v round_sig: round to nearest, ties to even, p significant bits"""
+    a = abs(z)
+    if a < (1 << p):
+        return z
+    e = a.bit_length() - p
+    q, r = a >> e, a & ((1 << e) - 1)
+    half = 1 << (e - 1)
+    if r > half or (r == half and (q & 1)):
+        q += 1
+    return (q << e) if z >= 0 else -(q << e)
+
+
+def _cast(z, enc, dt):
+    """numpy astype(dt) on an encoded key (what a conversion of one key column to the other's dtype would do)"""
+    if enc == 'S':
+        w = int(dt[1:])
+        return (z >> (8 * (SWIDTH - w))) << (8 * (SWIDTH - w)) if w < SWIDTH else z
+    if dt in FLOATS:
+        return _round_sig(24 if dt == 'float32' else 53, z)
+    sc = FSCALE if enc == 'f' else 0
+    v = abs(z) >> sc                          # truncation toward zero
+    v = v if z >= 0 else -v
+    if dt == 'bool':
+        return (1 if z != 0 else 0) << sc
+    bits = int(''.join(ch for ch in dt if ch.isdigit()))
+    v &= (1 << bits) - 1
+    if dt.startswith('int') and v >= (1 << (bits - 1)):
+        v -= 1 << bits
+    return v << sc
+
+
+def _dt_width(dt):
+    return int(dt[1:]) if dt[0] == 'S' else 1 if dt == 'bool' else int(''.join(ch for ch in dt if ch.isdigit()))
+
+
+def float_collapse(case):
+    """F-C02i: a pair of key columns the code compares as binary64 (key_views) holds, on opposite sides, two different
+    keys with the same binary64 value"""
+    for j, v in enumerate(binary64_pairs(case)):
+        if not v:
+            continue
+        seen = {}
+        for x in set(case['L']['keys'][j]):
+            seen.setdefault(_round_sig(53, x), set()).add(x)
+        for y in set(case['R']['keys'][j]):
+            if seen.get(_round_sig(53, y), set()) - {y}:
+                return True
+    return False
+
+
+def cast_alias(case):
+    """some conversion of one key column to the other column's dtype would make two different keys of opposite sides equal
+    (the region a 'harmonising' astype on either path falls into)"""
+    encs = _case_encs(case)
+    for j, (a, b) in enumerate(_pair_dts(case)):
+        if encs[j] is None or a == b:
+            continue
+        L, R = set(case['L']['keys'][j]), set(case['R']['keys'][j])
+        for (src, dst, dt) in ((R, L, a), (L, R, b)):
+            for y in src:
+                c = _cast(y, encs[j], dt)
+                if c != y and c in dst:
+                    return True
+    return False
+
+
 def spec_ok(case, impl, spec, mode):
     """the property itself: names as documented, equal lengths, the multiset of rows of the relational join,
     non-decreasing key order on the streamed path"""
@@ -446,6 +722,12 @@ def equal(case, impl, expected, mode):
 def known(case, impl, model, spec, mode):
     if long_run(case) and impl == 'EXC:ValueError':
         return 'F-C02g'
+    # F-C02i: mixed int64/uint64/float key columns are compared as binary64; suppressed only where two keys of opposite
+    # sides collapse AND (integer/float pair on the pandas path, where the conversion is a cast of both columns that the
+    # model reproduces) the implementation does exactly what the model predicts
+    if float_collapse(case) and isinstance(impl, list):
+        if not any(whole_column_cast(case)) or equal(case, impl, model, mode):
+            return 'F-C02i'
     # F-C02f (a key duplicated on both sides: non-monotone b-side map) is repaired by work/E7/fix-F-C02f.diff:
     # those cases are held to the specification like every other case, in every mode
     return None
@@ -480,6 +762,23 @@ def features(case, model):
     rn = [n for n, _ in _mapped(case['R'], case['rf'])]
     if set(ln) & set(rn): f.append('name-clash')
     for n in set(x[0] for x in ln + rn): f.append('kind:' + n)
+    encs = _case_encs(case)
+    if any(e is not None for e in encs):
+        for (a, b), e in zip(_pair_dts(case), encs):
+            if e is None:
+                continue
+            fam = lambda d: 'S' if d[0] == 'S' else 'float' if d in FLOATS else 'bool' if d == 'bool' else \
+                ('uint' if d[0] == 'u' else 'int')
+            f.append('keys:%s-%s' % (fam(a), fam(b)))
+            f.append('keys:same-dtype' if a == b else 'keys:different-dtype')
+            if a != b and fam(a) == fam(b):
+                f.append('keys:same-kind-%s' % ('right-wider' if _dt_width(b) > _dt_width(a) else 'left-wider'))
+        if cast_alias(case): f.append('keys:cross-side-alias-under-astype')
+        if float_collapse(case): f.append('keys:binary64-collapse(F-C02i)')
+        if any(binary64_pairs(case)): f.append('keys:compared-as-binary64')
+        allk = [z for fr in (case['L'], case['R']) for col in fr['keys'] for z in col]
+        if any(abs(z) >> (FSCALE if 'f' in encs else 0) >= (1 << 53) for z in allk) and 'S' not in encs:
+            f.append('keys:magnitude>=2^53')
     if is_ordered(case):
         kind, a, b = variant(case)
         f.append('variant:' + kind)
@@ -514,7 +813,8 @@ def features(case, model):
 
 
 def nontrivial(case, model):
-    fs = [x for x in features(case, model) if not x.startswith(('how:', 'path:', 'kind:', 'hint', 'sentinel', 'join-cs'))]
+    fs = [x for x in features(case, model)
+          if not x.startswith(('how:', 'path:', 'kind:', 'hint', 'sentinel', 'join-cs', 'keys:same-dtype', 'keys:different-dtype'))]
     return len(fs) > 0
 
 
@@ -689,6 +989,257 @@ def gen(tier, rng):
         c['mcs'] = rng.randint(1, 6); c['ccs'] = rng.randint(1, 6); c['vf'] = rng.choice([8, 2, 3])
         yield c
         cnt += 1
+    # F. key columns of every dtype, different on the two sides, values at the extremes and their aliases
+    for c in _gen_key_dtypes(tier, rng, cnt):
+        yield c
+
+
+# ------------------------------------------------------------------ F. key columns of every dtype, the two sides differing
+# (strengthening SC02).  Values are exact rationals (Fraction) / bytes; _zenc gives the model's integer.
+_INT_DTS = ['int8', 'int16', 'int32', 'int64', 'uint8', 'uint16', 'uint32', 'uint64', 'bool']
+_S_DTS = ['S1', 'S2', 'S3', 'S5', 'S8']
+
+
+def _f32(x):
+    import struct
+    try:
+        return struct.unpack('f', struct.pack('f', x))[0]
+    except OverflowError:
+        return float('inf')
+
+
+def _fits(x, dt):
+    """x (Fraction | bytes) is a value of dtype dt that the encoding can carry"""
+    from fractions import Fraction
+    if dt[0] == 'S':
+        return isinstance(x, bytes) and len(x) <= int(dt[1:]) and not x.endswith(b'\0')
+    if isinstance(x, bytes):
+        return False
+    if dt in INT_RANGE:
+        lo, hi = INT_RANGE[dt]
+        return x.denominator == 1 and lo <= x <= hi
+    if (x * (1 << FSCALE)).denominator != 1 or abs(x) > Fraction(10) ** 305:
+        return False
+    v = float(x)
+    if Fraction(v) != x:
+        return False
+    return dt == 'float64' or _f32(v) == v
+
+
+def _zenc(x, enc):
+    if enc == 'S':
+        return int.from_bytes(x.ljust(SWIDTH, b'\0'), 'big')
+    if enc == 'f':
+        return int(x * (1 << FSCALE))
+    return int(x)
+
+
+_POOL_CACHE = {}
+
+
+def _pool(dt):
+    """values at the extremes of dt and around every power of two at which an integer / float dtype ends"""
+    from fractions import Fraction as F
+    if dt in _POOL_CACHE:
+        return _POOL_CACHE[dt]
+    if dt[0] == 'S':
+        c = [b'', b'a', b'b', b'ab', b'abc', b'abd', b'abcd', b'abcde', b'abcdefg', b'abcdefgh', b'\xff', b'a\x80', b'a\x00b',
+             b'\x01', b'zzzzzzzz', b'\xc3\xa9', b'ab\xff']
+    else:
+        c = {F(v) for v in (0, 1, 2, 3, -1, -2)}
+        for b in (7, 8, 15, 16, 23, 24, 31, 32, 52, 53, 63, 64, 127, 128):
+            for d in (-2, -1, 0, 1, 2):
+                c.add(F((1 << b) + d)); c.add(F(-(1 << b) + d))
+        if dt in FLOATS:
+            c |= {F(1, 2), F(3, 2), F(-3, 2), F(1, 4), 1 + F(1, 1 << 23), 1 + F(1, 1 << 24), 1 + F(1, 1 << 30), 1 + F(1, 1 << 52),
+                  2 - F(1, 1 << 23), F(1 << 24) + F(1, 2), F((1 << 128) - (1 << 104)), F(1 << 128), F(10) ** 300 // 1,
+                  F(float(10 ** 300)), -F(float(10 ** 300)), F(255) + F(1, 2), F(1, 1 << 40)}
+    out = sorted(x for x in c if _fits(x, dt))
+    _POOL_CACHE[dt] = out
+    return out
+
+
+def _aliases(x, dt_to, rng):
+    """values of dt_to, different from x, that SOME conversion between key dtypes maps to x (or x to them): wrap-around at
+    8/16/32/64 bits, sign reinterpretation, rounding to a 24- or 53-bit significand, truncation of a fraction, truncation
+    of a byte string to a shorter width"""
+    from fractions import Fraction as F
+    out = []
+    if isinstance(x, bytes):
+        w = int(dt_to[1:]) if dt_to[0] == 'S' else 0
+        for ext in (b'd', b'\x01', b'de', b'\xff', b'defgh', b' '):
+            y = (x + ext)[:w]
+            if len(y) > len(x):
+                out.append(y)
+        if len(x) > 1:
+            out.append(x[:-1])
+        return [y for y in out if y != x and _fits(y, dt_to)]
+    if x.denominator == 1:
+        for w in (8, 16, 32, 64):
+            for m in (-2, -1, 1, 2):
+                out.append(x + m * (1 << w))
+        out += [x + 1, x - 1]
+    if dt_to in FLOATS:
+        out += [x + F(1, 2), x - F(1, 4), x + F(1, 1 << 40)]
+        if x != 0:
+            for p in (23, 24, 30, 52, 53):
+                out += [x * (1 + F(1, 1 << p)), x * (1 - F(1, 1 << p))]
+            lg = (abs(x.numerator).bit_length() - x.denominator.bit_length())
+            for p in (23, 24, 52, 53):
+                out += [x + F(2) ** (lg - p), x - F(2) ** (lg - p)]
+    elif x.denominator != 1:
+        out += [F(x.numerator // x.denominator), F(x.numerator // x.denominator + 1), F(round(x))]
+    out = [y for y in out if y != x and _fits(y, dt_to)]
+    rng.shuffle(out)
+    return out
+
+
+def _own_width_aliases(x, dt_from, dt_to):
+    """the aliases of x under astype(dt_from) among the values of dt_to (conversion to one of the two columns' own dtypes)"""
+    from fractions import Fraction as F
+    out = []
+    if isinstance(x, bytes):
+        w = int(dt_from[1:])
+        if len(x) == w:
+            out = [x + b'd', x + b'\x01z']
+    elif dt_from in INT_RANGE and dt_from != 'bool' and x.denominator == 1:
+        bits = int(dt_from.lstrip('uint'))
+        out = [x + m * (1 << bits) for m in (1, -1, 2)]
+    elif dt_from in FLOATS and x != 0:
+        p = 23 if dt_from == 'float32' else 52
+        lg = (abs(x.numerator).bit_length() - x.denominator.bit_length())
+        out = [x + F(2) ** (lg - p - 2), x - F(2) ** (lg - p - 2), x + F(2) ** (lg - p - 6)]
+    elif dt_from == 'bool':
+        out = [F(2), F(3), F(-1), F(256)]
+    return [y for y in out if y != x and _fits(y, dt_to)]
+
+
+def _dtype_pairs():
+    ps = [(a, b) for a in _INT_DTS for b in _INT_DTS]
+    ps += [(a, b) for a in FLOATS for b in FLOATS]
+    ps += [(a, b) for a in _INT_DTS for b in FLOATS] + [(a, b) for a in FLOATS for b in _INT_DTS]
+    ps += [(a, b) for a in _S_DTS for b in _S_DTS]
+    return ps
+
+
+def _key_sides(a, b, rng, sort, n_max=6):
+    """two key columns (exact values) of dtypes a, b: common values (true matches), values at the extremes of each
+    dtype, and on each side aliases of the other side's values under conversions between the two dtypes"""
+    pa, pb = _pool(a), _pool(b)
+    common = [x for x in pa if _fits(x, b)]
+    base = rng.sample(common, min(len(common), rng.randint(1, 3)))
+    L = [x for x in base if rng.random() < 0.8] + rng.sample(pa, min(len(pa), rng.randint(0, 2)))
+    R = [x for x in base if rng.random() < 0.8] + rng.sample(pb, min(len(pb), rng.randint(0, 2)))
+    for (src, dsrc, dst, ddst) in ((L, a, R, b), (R, b, L, a)):
+        for x in list(src):
+            al = _own_width_aliases(x, dsrc, ddst) if rng.random() < 0.7 else []
+            if not al:
+                al = _aliases(x, ddst, rng)
+            if al and rng.random() < 0.75:
+                dst.append(rng.choice(al[:4]))
+    L, R = L[:n_max], R[:n_max]
+    big = ('int64', 'uint64')
+    if ((a in big and b in FLOATS) or (b in big and a in FLOATS) or (a in big and b in big)) and rng.random() < 0.35:
+        # two keys one apart at a magnitude where binary64 cannot tell them apart (the comparison type of a mixed pair;
+        # a same-dtype 64-bit pair must of course tell them apart)
+        from fractions import Fraction as F
+        v = F(1 << rng.choice([53, 54, 60, 62, 63]))
+        for w, (sd, dt) in zip(rng.sample([v, v + 1, v - 1], 2), ((L, a), (R, b))):
+            if _fits(w, dt):
+                sd.append(w)
+            elif _fits(v, dt):
+                sd.append(v)
+    L[:] = sorted(set(L)); R[:] = sorted(set(R))
+    for side in (L, R):
+        if side and rng.random() < 0.3:
+            side.append(rng.choice(side))
+    if sort:
+        L.sort(); R.sort()
+    else:
+        rng.shuffle(L); rng.shuffle(R)
+    return L, R
+
+
+def _dtype_case(a, b, how, path, rng, cnt):
+    enc = _key_enc(a, b)
+    L, R = _key_sides(a, b, rng, sort=(path == 'streamed' or rng.random() < 0.7))
+    Lz, Rz = [_zenc(x, enc) for x in L], [_zenc(x, enc) for x in R]
+    same = (cnt % 3 == 0)
+    fl = {'keys': [Lz], 'kn': ['k'], 'cols': [['ia', _payload('i', len(Lz), 'l')]], 'dt': {'k': a}}
+    fr = {'keys': [Rz], 'kn': ['k' if same else 'kr'], 'cols': [['ip', _payload('i', len(Rz), 'r')]],
+          'dt': {('k' if same else 'kr'): b}}
+    if path == 'streamed':
+        lu = _strict(Lz) and rng.random() < 0.5
+        ru = _strict(Rz) and rng.random() < 0.5
+        hints = [True, lu, True, ru]
+        if rng.random() < 0.25:
+            sizes = dict(cs=None, mcs=None, vf=None, ccs=None)
+        else:
+            sizes = dict(cs=rng.randint(3, 6), mcs=rng.randint(1, 4), vf=8, ccs=rng.randint(1, 4))
+    else:
+        srt = Lz == sorted(Lz) and Rz == sorted(Rz)
+        h = rng.choice(_PANDAS_HINTS) if how != 'outer' else rng.choice([[None] * 4, [True, 'u', True, 'u']])
+        if not srt:
+            h = [None, h[1], None, h[3]]
+        hints = _truth(h, Lz, Rz)
+        if hints[1] and len(set(Lz)) < len(Lz): hints[1] = None
+        if hints[3] and len(set(Rz)) < len(Rz): hints[3] = None
+        sizes = dict(cs=None, mcs=None, vf=None, ccs=None)
+        if rng.random() < 0.2 and enc == 'i':
+            # compound key: a second, small int32 key column on both sides
+            k2l = [rng.randint(0, 1) for _ in Lz]; k2r = [rng.randint(0, 1) for _ in Rz]
+            fl['keys'].append(k2l); fl['kn'].append('kb')
+            fr['keys'].append(k2r); fr['kn'].append('kb' if same else 'kq')
+            hints = [None] * 4 if cnt % 2 else hints[:1] + [None] + hints[2:3] + [None]
+    c = {'how': how, 'hints': hints, 'L': fl, 'R': fr, 'lf': None, 'rf': None}
+    c.update(sizes)
+    return c
+
+
+def _gen_key_dtypes(tier, rng, cnt0):
+    from harness import hot
+    reps = 2 if tier == 'quick' else 12
+    if hot.changed():
+        reps *= 2            # some library source differs from the recorded tree: larger structured-random budget
+    cnt = cnt0
+    for rep in range(reps):
+        for (a, b) in _dtype_pairs():
+            for how, path in [(h, 'pandas') for h in HOWS] + [(h, 'streamed') for h in ('left', 'right', 'inner')]:
+                c = _dtype_case(a, b, how, path, rng, cnt)
+                cnt += 1
+                nl, nr = len(c['L']['keys'][0]), len(c['R']['keys'][0])
+                if c['cs'] is None and not (nl * nr + nl + nr < MODEL_BIG):
+                    continue
+                if float_collapse(c) and not any(whole_column_cast(c)):
+                    # F-C02i where no per-column model predicts the result (numba's per-comparison conversion, pandas'
+                    # int64/uint64 route): witnesses live in corpus/C02/F-C02i.json; the cross-cutting checks C10/C11 that
+                    # re-run this generator compare with the model only
+                    continue
+                yield c
+    # change-directed: a small integer literal K that is new in the tree under test may be a threshold on a key value, a
+    # key-column length or a chunk size: key values and lengths K-1, K, K+1, 2K with chunk sizes around K, on both paths
+    for K in hot.hot_sizes():
+        if not (2 <= K <= 400):
+            continue
+        for n in (K - 1, K, K + 1, 2 * K):
+            for how, path in [(h, 'pandas') for h in HOWS] + [(h, 'streamed') for h in ('left', 'right', 'inner')]:
+                a, b = rng.choice([('int32', 'int64'), ('int64', 'int32'), ('uint16', 'int32'), ('int64', 'int64'),
+                                   ('int16', 'uint32')])
+                Lz = sorted(rng.sample(range(0, 2 * n + 2), n))
+                Rz = sorted(rng.sample(range(0, 2 * n + 2), rng.choice([n, max(1, K - 1), min(n, 3)])))
+                for side, dt in ((Lz, a), (Rz, b)):
+                    for v in (K - 1, K, K + 1, 2 * K, K + (1 << 16), K + (1 << 32)):
+                        if INT_RANGE[dt][0] <= v <= INT_RANGE[dt][1] and rng.random() < 0.5 and v not in side:
+                            side.append(v)
+                    side.sort()
+                fl = {'keys': [Lz], 'kn': ['k'], 'cols': [['ia', _payload('i', len(Lz), 'l')]], 'dt': {'k': a}}
+                fr = {'keys': [Rz], 'kn': ['kr'], 'cols': [['ip', _payload('i', len(Rz), 'r')]], 'dt': {'kr': b}}
+                c = {'how': how, 'L': fl, 'R': fr, 'lf': None, 'rf': None}
+                c['hints'] = [True, rng.random() < 0.5, True, rng.random() < 0.5] if path == 'streamed' else [None] * 4
+                # (the pandas path reads none of the sizes; they are given so that the model is not asked for 1<<20 buffers)
+                c.update(cs=max(2, rng.choice([K - 1, K, K + 1, 2 * K])), mcs=max(1, rng.choice([K - 1, K, K + 1])), vf=8,
+                         ccs=max(1, rng.choice([K - 1, K, K + 1])))
+                yield c
 
 
 def shrink(case):
@@ -697,8 +1248,8 @@ def shrink(case):
         n = len(fr['keys'][0])
         for i in range(n):
             c = dict(case)
-            c[side] = {'keys': [k[:i] + k[i + 1:] for k in fr['keys']], 'kn': fr['kn'],
-                       'cols': [[nm, v[:i] + v[i + 1:]] for nm, v in fr['cols']]}
+            c[side] = dict(fr, keys=[k[:i] + k[i + 1:] for k in fr['keys']],
+                           cols=[[nm, v[:i] + v[i + 1:]] for nm, v in fr['cols']])
             yield c
         for j in range(len(fr['cols'])):
             nm = fr['cols'][j][0]
@@ -721,5 +1272,10 @@ LEVEL_TEXT = ('Theorems in coq/Props/C02.v: the streamed path of the repaired me
               'instantiate C03 streamed_total for all eight generators and C04 for in-range maps in any order; the copied side of the '
               'right/left-unique variants is proved equal to the gather through all rows; equal column lengths and '
               'non-decreasing key order are separate corollaries); the pandas path is correspondence against the '
-              'specification (pandas trusted).')
+              'specification (pandas trusted). Key columns of any dtype: the relational join is invariant under every map '
+              'of the key values that is injective on the values present (join_pairs_key_embedding, merge_spec_key_embedding, '
+              'join_maps_key_embedding) and the streamed path run on keys seen through a strictly monotone map returns the '
+              'destination of the join of the keys themselves (ordered_merge_key_embedding); conversions that are not '
+              'injective on the keys present change the join (narrowing_key_cast_refuted: int64->int32, int64->uint16, '
+              'float64->float32, S5->S3; binary64_key_comparison_refuted: F-C02i).')
 LEVEL_NOTE = 'Model tied to /repo by the differential run only; see evidence for theorem list and which are full / partial / refuted.'
